@@ -533,8 +533,13 @@ class Escape:
         return out
 
     # ------------------------------------------------------------------ propagation
-    def escapes(self, entry: str, extra_roots: list[str] | None = None) -> tuple[dict, set]:
-        """Returns ({Site: chain(list of func keys)}, reachable function keys)."""
+    def escapes(self, entry: str, extra_roots: list[str] | None = None, recursion: bool = False, roots_at: str | None = None) -> tuple[dict, set]:
+        """Returns ({Site: chain(list of func keys)}, reachable function keys).
+
+        With ``recursion`` every reachable function that lies on a call-graph cycle gets a
+        synthetic RecursionError site: its depth is driven by the input (nesting, rule
+        references), so the exception can be raised there for some input.
+        """
         if entry not in self.funcs:
             raise AnalysisError(f"anchor vanished: entry point {entry}")
         # reachable set with address-taken closure
@@ -555,11 +560,17 @@ class Escape:
                 if c in self.funcs and c not in reach:
                     reach[c] = k
                     work.append(c)
+        attach = entry
+        if roots_at is not None:
+            # the dynamically called roots (optimizer passes) are invoked from this function
+            if roots_at not in reach:
+                raise AnalysisError(f"anchor vanished: {roots_at} is not reachable from {entry}")
+            attach = roots_at
         for r in extra_roots or []:
             if r in self.funcs and r not in reach:
-                reach[r] = entry
+                reach[r] = attach
                 work.append(r)
-                edges.setdefault(entry, []).append((r, ()))
+                edges.setdefault(attach, []).append((r, ()))
                 while work:
                     k = work.pop()
                     f = self.funcs[k]
@@ -575,6 +586,11 @@ class Escape:
             for site, handlers in self.funcs[k].sites:
                 if not self._handled(site.exc, handlers):
                     esc[k][site] = [k]
+        self.recursive_funcs: set[str] = set()
+        if recursion:
+            self.recursive_funcs = _on_cycle({k: [c for c, _ in edges.get(k, []) if c in reach] for k in reach})
+            for k in sorted(self.recursive_funcs):
+                esc[k][Site(k, "recursion", "<call-graph cycle>", "RecursionError")] = [k]
         changed = True
         while changed:
             changed = False
@@ -606,6 +622,55 @@ _DUNDER = {
     ast.Add: "__add__", ast.Sub: "__sub__", ast.Mult: "__mul__", ast.Gt: "__gt__", ast.Lt: "__lt__", ast.GtE: "__ge__",
     ast.LtE: "__le__", ast.Eq: "__eq__", ast.NotEq: "__ne__", ast.FloorDiv: "__floordiv__", ast.Mod: "__mod__",
 }
+
+
+def _on_cycle(graph: dict[str, list[str]]) -> set[str]:
+    """Nodes of non-trivial strongly connected components (or with a self edge); iterative Tarjan."""
+    index: dict[str, int] = {}
+    low: dict[str, int] = {}
+    on: set[str] = set()
+    stack: list[str] = []
+    out: set[str] = set()
+    counter = 0
+    for root in graph:
+        if root in index:
+            continue
+        work = [(root, iter(graph.get(root, [])))]
+        index[root] = low[root] = counter
+        counter += 1
+        stack.append(root)
+        on.add(root)
+        while work:
+            v, it = work[-1]
+            advanced = False
+            for w in it:
+                if w not in index:
+                    index[w] = low[w] = counter
+                    counter += 1
+                    stack.append(w)
+                    on.add(w)
+                    work.append((w, iter(graph.get(w, []))))
+                    advanced = True
+                    break
+                if w in on:
+                    low[v] = min(low[v], index[w])
+            if advanced:
+                continue
+            work.pop()
+            if work:
+                u = work[-1][0]
+                low[u] = min(low[u], low[v])
+            if low[v] == index[v]:
+                comp = []
+                while True:
+                    w = stack.pop()
+                    on.discard(w)
+                    comp.append(w)
+                    if w == v:
+                        break
+                if len(comp) > 1 or v in graph.get(v, []):
+                    out.update(comp)
+    return out
 
 
 def _walk_no_lambda_defs(e: ast.AST):
